@@ -218,7 +218,7 @@ func c06Run(c *core.Ctx) {
 		case c.WantSample() && idx%5003 == 0:
 			c.Sample(map[string]interface{}{"family": cs.Family, "input": string(cs.Input), "expected": rowsStr(cs.Want)})
 		}
-		return idx%512 != 0 || !c.TimeUp()
+		return !c.TimeUpEvery(32)
 	}
 	hdr := func(f string) string {
 		return `"parser_settings":{"version":"omni.2.1","file_format_type":"` + f + `"}`
